@@ -52,10 +52,10 @@ FoldSet(es) == {<<k, es[First(es, k)][2], 1>> : k \in KeysOf(es)}
 BulkOk(e) ==
   /\ e.outcome # "panic"                                     \* never panics
   /\ e.outcome \in {"ok", "err"}
-  /\ CASE e.how = "serde_map" ->
+  /\ CASE e.how \in {"serde_map", "value_map", "serde_zmap"} ->
             /\ (e.raw = 0 /\ ~HasDup(e.entries)) => e.outcome = "ok"
             /\ (e.raw = 0 /\ e.outcome = "ok") => SomeInterleaving(e)
-       [] e.how = "serde_set" ->
+       [] e.how \in {"serde_set", "value_set", "serde_zset"} ->
             /\ (e.raw = 0) => e.outcome = "ok" /\ SetContents(e)
        [] e.how \in {"roundtrip_map", "roundtrip_set"} ->
             /\ e.outcome = "ok" /\ e.eq = 1 /\ e.items = e.orig
